@@ -337,6 +337,27 @@ theorem ref_pch_in_consistent (pref : ℝ) :
         have : p - o.inVoa + o.gain - o.outVoa = pref + o.dpInt - o.outVoa := by rw [h.1]
         rw [this]
 
+/-! ### the design load -/
+
+/-- `automatic_nch` is the number of whole spacings that fit in the band -/
+theorem automaticNch_spec (fmin fmax spacing : Int) (hs : 0 < spacing) :
+    automaticNch fmin fmax spacing * spacing ≤ fmax - fmin ∧
+    fmax - fmin < (automaticNch fmin fmax spacing + 1) * spacing := by
+  unfold automaticNch
+  exact ⟨Int.ediv_mul_le _ (ne_of_gt hs), Int.lt_ediv_add_one_mul_self _ hs⟩
+
+/-- **the design load of a band is counted with the band's own spacing** unless the reference channel imposes a count:
+two bands of the same width and different spacings carry different loads, the same band under two different
+reference spacings carries the same load -/
+theorem design_load_uses_band_spacing (fmin fmax spacing : Int) :
+    designChannels none fmin fmax spacing = automaticNch fmin fmax spacing ∧
+    (∀ n, n ≠ 0 → designChannels (some n) fmin fmax spacing = n) ∧
+    designChannels none 191300000000000 195100000000000 100000000000 = 38 ∧
+    designChannels none 191300000000000 195100000000000 50000000000 = 76 := by
+  refine ⟨rfl, ?_, by decide, by decide⟩
+  intro n hn
+  simp [designChannels, hn]
+
 /-! ### non-vacuity -/
 
 /-- `ref_power_invariant` applied to a two-amplifier OMS with mixed settings (auto booster, user in-line amplifier
